@@ -522,6 +522,27 @@ func (x *Exec) inline(fr *Frame, st *State, site ssa.CallInstruction, callee *ss
 	}
 	ctx := fr.ctx + ">" + siteID(fr, site)
 	var outs []CallOut
+	// a boolean argument that the path leaves open (e.g. reload(st.f == nil)) is
+	// decided before the callee is entered, so that loops of the callee which
+	// branch on the parameter are analysed once per value instead of joined
+	for i, a := range args {
+		if a == nil || i >= len(callee.Params) || a.Op == "const" || a.Op == "param" {
+			continue
+		}
+		if bt, ok := callee.Params[i].Type().Underlying().(*types.Basic); !ok || bt.Kind() != types.Bool {
+			continue
+		}
+		if st.truth(a) >= 0 || !(a.Op == "eq" || a.Op == "lt" || a.Op == "not") {
+			continue
+		}
+		for _, v := range []bool{true, false} {
+			s2 := st.clone()
+			s2.setFact(a, v)
+			s2.note(site.Pos(), "argument %s = %v", a, v)
+			outs = append(outs, x.inline(fr.clone(), s2, site, callee, fnTerm, args)...)
+		}
+		return outs
+	}
 	x.C.BeforeInline(x, st, fr, site, callee, args)
 	seen := map[string]bool{}
 	for _, r := range x.RunFunc(callee, args, free, st, ctx, fr.depth+1) {
